@@ -247,6 +247,44 @@ def _arm_of(fn, bb):
     return "?"
 
 
+def back_decisions(ck, P, R="SIB/back~dispatch"):
+    """back() is a second copy of the block-header arms of State::dispatch (with its own bit handling).  The decisions that are
+    about the decoder's state alone - counts, table sizes, loop bounds over `have`, `nlen`, `ndist`, `ncode`, `lens` - are the same
+    in both: every such comparison of a dispatch arm has a counterpart in the corresponding arm of back()."""
+    from . import c04 as _c04
+    d = P.fn(decoders.DISPATCH)
+    b = P.fn(Z + "inflate::infback::back")
+    if not (ck.anchor("fn dispatch", d) and ck.anchor("fn infback::back", b)):
+        return
+    rd = decoders.mode_regions(d, 20)
+    sw = b.enum_switches("inflate::Mode", 4)
+    if not (ck.anchor("mode switch of dispatch", rd) and ck.anchor("mode switch of back", len(sw) == 1)):
+        return
+    rb = b.arm_regions(sw[0])
+
+    def state_only(cmps):
+        out = set()
+        for cls, calls, names, consts, variants in cmps:
+            names = tuple(n for n in names if n != "state")
+            if calls or not names or variants:
+                continue
+            out.add((cls, names, frozenset(consts)))
+        return out
+    n = 0
+    for arms_d, arm_b in ((("Table", "LenLens", "CodeLens"), "Table"), (("Stored", "CopyBlock"), "Stored"), (("Type", "TypeDo"), "Type")):
+        if not ck.anchor("arm %s of back" % arm_b, arm_b in rb):
+            continue
+        ca = state_only(set().union(*[_c04._arm_cmps(d, rd[a]) for a in arms_d if a in rd]))
+        cb = state_only(_c04._arm_cmps(b, rb[arm_b]))
+        missing = sorted((cls, names, sorted(consts)) for cls, names, consts in ca
+                         if not any(c2 == cls and n2 == names and consts <= k2 for c2, n2, k2 in cb))
+        n += len(ca)
+        ck.decide(not missing, R, "%s:decisions" % arm_b, "every state-only decision of dispatch has a counterpart (%d)" % len(ca),
+                  "arm %s of back() no longer makes the decisions %s that the corresponding arms of State::dispatch make: inflateBack "
+                  "decodes (or rejects) a block header differently from inflate" % (arm_b, missing), where(b))
+    ck.floor(R + ":decisions", n, 6)
+
+
 def who(ck, P):
     R = "WHO/unpadded-window"
     for path in (BACK, FAST_BACK):
@@ -376,6 +414,7 @@ def run(ck):
     n = decoders.check_rejections(ck, P, "ATOM/rejection", only_impls={BACK, FAST_BACK})
     ck.floor("ATOM/rejection", n, 17)
     decoders.check_table_fields(ck, P, "ATOM/header-fields", impls=(BACK,))
+    back_decisions(ck, P)
     try:
         a = consts.get(P, Z + "inflate::State::dispatch::ORDER")
         b = consts.get(P, Z + "inflate::infback::back::ORDER")
